@@ -328,7 +328,9 @@ def run(ctx):
         "connection behaviour (exhausted connection: recv() raises ConnectionClosedOK / iteration ends; frames buffered "
         "after close() would still be delivered, send() after close() raises) is that of websockets 17.1; the fake "
         "connection reproducing it is compared with a real loopback server on every run",
-        "frames are text frames; JSON object keys are unique; no float leaves (Base/Json.v truthy)",
+        "inside the Coq model a frame is a JSON VALUE (unique keys, no float leaves); which texts / byte strings are a JSON "
+        "value, and which one, is decided by Python's json.loads, the function the client is specified to use (reference of "
+        "the wire-dimension stream: nesting depth, surrogates, huge strings, number edge cases, binary frames, BOMs)",
         "OpenTelemetry: a recording tracer stub (opentelemetry-sdk is not installed); span attributes are not compared, span names are",
         "the handshake against a real websockets server is RUNTIME-ONLY evidence (no theorem covers it)",
     ]
@@ -337,6 +339,7 @@ def run(ctx):
 
     c13_deep.tables(run, I)
     c13_deep.corpus(run, I)
+    c13_deep.wire_dimension(run, I)
     t0 = time.time()
     tasks = []
     for L in range(0, maxlen + 1):
